@@ -36,6 +36,15 @@ def unbits(b: int) -> float:
     return struct.unpack("<d", struct.pack("<Q", int(b)))[0]
 
 
+def _other_kind_first(cls, a, b, n):
+    """the grid of the *other* kind with the same start / stop / n_points is materialised first, in the same process: whatever
+    the library remembers about one kind must not leak into the other"""
+    try:
+        cls(start=a, stop=b, n_points=n).to_jax()
+    except Exception:  # noqa: BLE001  (e.g. a log grid with a non-positive start)
+        pass
+
+
 def run_case(case):
     I = impl()
     jnp, np, jax = I.jnp, I.np, I.jax
@@ -110,6 +119,7 @@ def run_case(case):
         else:
             a = Fr(r.uniform(-100, 100))
             b = a + Fr(r.uniform(0.01, 1000))
+        _other_kind_first(LogspaceGrid, float(a), float(b), n)
         g = LinspaceGrid(start=float(a), stop=float(b), n_points=n)
         tol = None if dyadic else 1e-9
         if dyadic:
@@ -128,10 +138,12 @@ def run_case(case):
     else:
         a = r.choice([0.01, 0.1, 0.5, 1.0, 2.0, r.uniform(0.01, 5)])
         b = a * r.choice([1.5, 3.0, 10.0, 100.0, r.uniform(1.5, 100)])
+        _other_kind_first(LinspaceGrid, a, b, n)
         g = LogspaceGrid(start=a, stop=b, n_points=n)
         tol = 1e-9
         if r.random() < 0.4:
             n = r.choice([25, 60, 150, 400])       # many nodes: absolute coordinate errors scale with the index
+            _other_kind_first(LinspaceGrid, a, b, n)
             g = LogspaceGrid(start=a, stop=b, n_points=n)
         vals = {Fr(r.uniform(a, b)) for _ in range(6)}
         nodes_ = np.asarray(g.to_jax())
